@@ -26,6 +26,7 @@ def parseOp (j : Json) : Except String (Files.Op String) := do
   | [Json.str "write", Json.str n, Json.str e, Json.str c] => pure (.write (txt n) (txt e) c)
   | [Json.str "delete", Json.str f] => pure (.delete (txt f))
   | [Json.str "backup", Json.str f, Json.bool r] => pure (.backup (txt f) r)
+  | [Json.str "create", Json.str f, Json.str c] => pure (.create (txt f) c)
   | _ => throw "bad-op"
 
 def optName : Option Files.Name → Json
